@@ -1008,7 +1008,9 @@ func isRouted(target string) bool {
 	return fill || target == "route" || target == "post" || target == "route2" || target == "twin"
 }
 
-var chainAEs = []string{"gzip", "deflate", "", "gzip, deflate", "deflate, gzip", "identity", "br", "gzip;q=0", "GZIP", "x-gzip, deflate;q=0.5"}
+// the last two name no coding the library knows: a wildcard is not a mention of gzip (the statement:
+// "the request's Accept-Encoding mentioned that coding"), and `*;q=0` refuses everything not named
+var chainAEs = []string{"gzip", "deflate", "", "gzip, deflate", "deflate, gzip", "identity", "br", "gzip;q=0", "GZIP", "x-gzip, deflate;q=0.5", "br, *;q=0.1", "identity, *;q=0"}
 
 func genChainReq(tp *sim.Tape, cfg *ChainCfg, k chainKnobs, id int) *ChainReq {
 	r := &ChainReq{ID: id}
